@@ -16,7 +16,10 @@ import functools
 import itertools
 import os
 
+import shutil
+
 from mc.core import harness as H
+from mc.core import proc
 from mc.checks import rules_common as R
 
 PROPERTY = "C08"
@@ -355,7 +358,49 @@ def check_views(case):
     rest = {k: v for k, v in full.items() if k != "BadView"}
     if rest != red:
         viol.append({"kind": "failing-element-changes-outcome", "detail": {"views": text, "with_failing_view": rest, "without_it": red}})
-    return {"evals": 2, "nontrivial": 1, "outcomes": ["view-excluded"], "violations": viol, "sample_repr": {"views": text}}
+    evals = 2
+    if vkind == "filter":
+        # the same views file in a budget on disk: `tally explain <merchant>` lists the views a merchant belongs to - with the failing view
+        # in the file it must list what it lists without it
+        lists = {}
+        for label, vt in (("with", text), ("without", view_text(e, vkind, placement, remove=True))):
+            base = _views_budget(vt)
+            for merchant in ("Grocer", "Landlord"):
+                evals += 1
+                r = proc.run_cli(["explain", merchant, "--format", "json"], cwd=base)
+                try:
+                    doc = proc.json_document(r["stdout"])
+                    lists[(label, merchant)] = sorted(v["name"] for v in doc.get("views", []) if v["name"] != "BadView") if "views" in doc else None
+                except Exception:  # noqa
+                    lists[(label, merchant)] = f"exit {r['exit']}: no JSON document; stderr: {r['stderr'][-200:]}"
+                if r["exit"] == 70 or "Traceback (most recent call last)" in r["stderr"]:
+                    viol.append({"kind": "exception-escapes-classification", "detail": {"entry": "tally explain " + merchant, "views": vt, "stderr_tail": r["stderr"][-300:]}})
+            shutil.rmtree(base, ignore_errors=True)
+        for merchant in ("Grocer", "Landlord"):
+            if lists[("with", merchant)] != lists[("without", merchant)]:
+                viol.append({"kind": "failing-element-changes-outcome", "detail": {"entry": "tally explain " + merchant + " --format json", "views": text,
+                                                                                   "views_listed_with_failing_view": lists[("with", merchant)],
+                                                                                   "without_it": lists[("without", merchant)]}})
+    return {"evals": evals, "nontrivial": 1, "outcomes": ["view-excluded"], "violations": viol, "sample_repr": {"views": text}}
+
+
+def _views_budget(views_text):
+    base = os.path.join(R.scratch(), "c08views")
+    shutil.rmtree(base, ignore_errors=True)
+    os.makedirs(os.path.join(base, "config"))
+    os.makedirs(os.path.join(base, "data"))
+    with open(os.path.join(base, "config", "settings.yaml"), "w") as f:
+        f.write('year: 2025\nmerchants_file: config/merchants.rules\nviews_file: config/views.rules\ndata_sources:\n  - name: S\n    file: data/s.csv\n'
+                '    format: "{date:%Y-%m-%d},{description},{amount}"\n')
+    with open(os.path.join(base, "config", "merchants.rules"), "w") as f:
+        f.write('[Grocer]\nmatch: contains("GROCER")\ncategory: Food\nsubcategory: S\ntags: x\n\n[Cafe]\nmatch: contains("CAFE")\ncategory: Food\nsubcategory: S\ntags: x\n\n'
+                '[Landlord]\nmatch: contains("LANDLORD")\ncategory: Bills\nsubcategory: S\ntags: x\n\n[Payroll]\nmatch: contains("PAYROLL")\ncategory: Income\nsubcategory: S\ntags: income\n')
+    with open(os.path.join(base, "config", "views.rules"), "w") as f:
+        f.write(views_text)
+    with open(os.path.join(base, "data", "s.csv"), "w") as f:
+        f.write("Date,Description,Amount\n2025-01-10,GROCER,30.00\n2025-02-10,GROCER,40.00\n2025-01-10,CAFE,5.00\n2025-01-10,LANDLORD,900.00\n2025-02-10,LANDLORD,900.00\n"
+                "2025-01-10,PAYROLL,-2000.00\n")
+    return base
 
 
 # ------------------------------------------------------------------------------------------------ legacy CSV rule files
